@@ -1,13 +1,299 @@
 /-
 C17 — Geometry and metrics obey their laws.
+
+Property theorems about M-Geom (`DefconModel/Geom.lean`: executable model of the geometry code of
+defcon's Contour/Glyph/Component/Anchor/Image and of the fontTools pens it runs on).  Helper
+lemmas are in `Lemmas/Geom/*.lean`, specification-side definitions in `Spec/Geom.lean`.
+
+Coordinates are rationals (every int and every float is one).  `o : CurveOracle` stands for
+fontTools' numeric curve-extrema functions; theorems that involve curve bounds hold for every
+oracle obeying `CurveOracle.Lawful` (contains its curve, lies in the control box, commutes with
+translation) — the exact extrema box does, and so does `hullOracle` (theorem `oracle_laws_hold`).
 -/
 import DefconModel.Lemmas.Geom
 
 namespace DefconModel.Props.C17
 open DefconModel DefconModel.Geom
 
+/-! ## 1. Bounds lie within control-point bounds, and both contain the outline -/
+
+/-- A cubic Bézier never leaves the range of its four control values (Bernstein weights are
+non-negative and sum to 1) — over any linearly ordered field, so over ℚ and ℝ alike. -/
+theorem cubic_in_hull {K : Type} [Field K] [LinearOrder K] [IsStrictOrderedRing K] (a b c d t lo hi : K)
+    (h0 : 0 ≤ t) (h1 : t ≤ 1) (ha : lo ≤ a ∧ a ≤ hi) (hb : lo ≤ b ∧ b ≤ hi) (hc : lo ≤ c ∧ c ≤ hi)
+    (hd : lo ≤ d ∧ d ≤ hi) :
+    lo ≤ (1 - t) ^ 3 * a + 3 * (1 - t) ^ 2 * t * b + 3 * (1 - t) * t ^ 2 * c + t ^ 3 * d ∧
+    (1 - t) ^ 3 * a + 3 * (1 - t) ^ 2 * t * b + 3 * (1 - t) * t ^ 2 * c + t ^ 3 * d ≤ hi :=
+  ⟨cubic_ge a b c d t lo h0 h1 ha.1 hb.1 hc.1 hd.1, cubic_le a b c d t hi h0 h1 ha.2 hb.2 hc.2 hd.2⟩
+
+/-- … the same for a quadratic Bézier. -/
+theorem quadratic_in_hull {K : Type} [Field K] [LinearOrder K] [IsStrictOrderedRing K] (a b c t lo hi : K)
+    (h0 : 0 ≤ t) (h1 : t ≤ 1) (ha : lo ≤ a ∧ a ≤ hi) (hb : lo ≤ b ∧ b ≤ hi) (hc : lo ≤ c ∧ c ≤ hi) :
+    lo ≤ (1 - t) ^ 2 * a + 2 * (1 - t) * t * b + t ^ 2 * c ∧
+    (1 - t) ^ 2 * a + 2 * (1 - t) * t * b + t ^ 2 * c ≤ hi :=
+  ⟨quad_ge a b c t lo h0 h1 ha.1 hb.1 hc.1, quad_le a b c t hi h0 h1 ha.2 hb.2 hc.2⟩
+
+/-- Every point of the outline of a contour — at every parameter of every line, quadratic and
+cubic segment, closing line included — lies in the contour's `controlPointBounds`. -/
+theorem outline_within_control_bounds (pts : List Point) (q : Pt) (hq : OnPath none (prims pts) q) :
+    ∃ b, freshCpb pts = some b ∧ b.Has q :=
+  onPath_in_ctrlFold (prims pts) none none q (by intro s c h; cases h) hq
+
+/-- `bounds` lies within `controlPointBounds`, whatever a lawful curve-extrema oracle answers
+(in particular: BoundsPen's shortcut "skip the curve when its handles are inside" never lets the
+box exceed the control box). -/
+theorem bounds_within_control_bounds {o : CurveOracle} (ho : o.Lawful) (pts : List Point) :
+    OWithin (freshBnd o pts) (freshCpb pts) :=
+  bndBox_within_ctrlBox ho (Blocks.prims pts)
+
+/-- `bounds` contains every point of the outline (BoundsPen's shortcut never cuts a curve off). -/
+theorem outline_within_bounds {o : CurveOracle} (ho : o.Lawful) (pts : List Point) (q : Pt)
+    (hq : OnPath none (prims pts) q) : ∃ b, freshBnd o pts = some b ∧ b.Has q :=
+  onPath_in_bndBox ho (Blocks.prims pts) q hq
+
+/-- The same two facts for a component (base glyph drawn through its transformation, nested
+components included): its `bounds` lie within its `controlPointBounds`. -/
+theorem component_bounds_within_control_bounds {o : CurveOracle} (ho : o.Lawful) (w : World) (k : Component)
+    (b c : Option Box) (hb : k.bounds o w = .ok b) (hc : k.cpb w = .ok c) : OWithin b c := by
+  unfold Component.bounds at hb
+  unfold Component.cpb at hc
+  cases h : componentCalls w k with
+  | error e => rw [h] at hb; cases hb
+  | ok cs =>
+    rw [h] at hb hc
+    cases hb; cases hc
+    exact bndBox_within_ctrlBox ho (Blocks.componentCalls w k cs h)
+
+/-- The oracle laws are satisfiable: the box of the control points obeys them (the driver runs with
+it; the exact extrema box obeys them too, by `cubic_in_hull`/`quadratic_in_hull`). -/
+theorem oracle_laws_hold : hullOracle.Lawful := hullOracle_lawful
+
+/-! ## 2. Moving by (dx, dy) translates coordinates, bounds, control bounds; area unchanged -/
+
 /-- `Contour.move` adds `(dx, dy)` to every point and changes nothing else about the points. -/
 theorem move_points (c : Contour) (dx dy : Rat) :
     (c.move dx dy).points = c.points.map (fun p => { p with pt := ⟨p.pt.x + dx, p.pt.y + dy⟩ }) := rfl
+
+/-- Recomputed from the moved points, `controlPointBounds` is the old box moved by `(dx, dy)`. -/
+theorem move_translates_control_bounds (pts : List Point) (dx dy : Rat) :
+    freshCpb (pts.map (·.move dx dy)) = (freshCpb pts).map (·.shift dx dy) :=
+  freshCpb_move dx dy pts
+
+/-- Recomputed from the moved points, `bounds` is the old box moved by `(dx, dy)`. -/
+theorem move_translates_bounds {o : CurveOracle} (ho : o.Lawful) (pts : List Point) (dx dy : Rat) :
+    freshBnd o (pts.map (·.move dx dy)) = (freshBnd o pts).map (·.shift dx dy) :=
+  freshBnd_move dx dy ho pts
+
+/-- The signed area (hence `area` and `clockwise`) of the moved points is unchanged: the changes of
+the individual pen terms cancel when the sub path closes. -/
+theorem move_keeps_area (pts : List Point) (dx dy : Rat) :
+    freshArea (pts.map (·.move dx dy)) = freshArea pts :=
+  freshArea_move dx dy pts
+
+/-- `Contour.move` patches the cached `bounds` in place instead of recomputing.  That is right:
+reading `bounds` and then moving leaves the same contour (points *and* caches) as moving and then
+reading, and the two answers differ by exactly `(dx, dy)` — for any cache state, any vector. -/
+theorem move_commutes_with_reading_bounds {o : CurveOracle} (ho : o.Lawful) (caching : Bool) (c : Contour)
+    (dx dy : Rat) :
+    (c.move dx dy).getBounds o caching =
+      (((c.getBounds o caching).1).move dx dy, ((c.getBounds o caching).2).map (Option.map (·.shift dx dy))) :=
+  Contour.getBounds_move dx dy ho caching c
+
+/-- … the same for `controlPointBounds` … -/
+theorem move_commutes_with_reading_control_bounds (caching : Bool) (c : Contour) (dx dy : Rat) :
+    (c.move dx dy).getCpb caching =
+      (((c.getCpb caching).1).move dx dy, ((c.getCpb caching).2).map (Option.map (·.shift dx dy))) :=
+  Contour.getCpb_move dx dy caching c
+
+/-- … and for the area representation, which `move` leaves in the cache untouched. -/
+theorem move_commutes_with_reading_area (caching : Bool) (c : Contour) (dx dy : Rat) :
+    (c.move dx dy).getArea caching = (((c.getArea caching).1).move dx dy, (c.getArea caching).2) :=
+  Contour.getArea_move dx dy caching c
+
+/-- `Component.move` translates the component's `bounds` and `controlPointBounds` (its outline is
+the base glyph's under the transformation; nested components included). -/
+theorem component_move_translates {o : CurveOracle} (ho : o.Lawful) (w : World) (k : Component) (dx dy : Rat) :
+    (k.move dx dy).bounds o w = (k.bounds o w).map (Option.map (·.shift dx dy)) ∧
+    (k.move dx dy).cpb w = (k.cpb w).map (Option.map (·.shift dx dy)) :=
+  ⟨Component.bounds_move dx dy ho w k, Component.cpb_move dx dy w k⟩
+
+/-- `Glyph.move` moves every contour, component and anchor by `(dx, dy)` and nothing else. -/
+theorem glyph_move_parts (g : Glyph) (dx dy : Rat) :
+    (g.move dx dy).contours = g.contours.map (·.move dx dy) ∧
+    (g.move dx dy).components = g.components.map (·.move dx dy) ∧
+    (g.move dx dy).anchors = g.anchors.map (·.shift dx dy) ∧
+    (g.move dx dy).width = g.width ∧ (g.move dx dy).height = g.height ∧ (g.move dx dy).vo = g.vo ∧
+    (g.move dx dy).image = g.image := ⟨rfl, rfl, rfl, rfl, rfl, rfl, rfl⟩
+
+/-- `Glyph.move` translates the glyph's `bounds` and `controlPointBounds` by `(dx, dy)`, whatever is
+cached in its contours, and leaves its `area` unchanged (base glyphs looked up in the same layer:
+the glyph is not its own base). -/
+theorem glyph_move_translates {o : CurveOracle} (ho : o.Lawful) (w : World) (g : Glyph) (dx dy : Rat) :
+    ((g.move dx dy).getBounds o w).2 = (g.getBounds o w).2.map (Option.map (·.shift dx dy)) ∧
+    ((g.move dx dy).getCpb w).2 = (g.getCpb w).2.map (Option.map (·.shift dx dy)) ∧
+    (g.move dx dy).area w = g.area w := by
+  refine ⟨?_, ?_, Glyph.area_move dx dy w g⟩
+  · rw [Glyph.getBounds_move dx dy ho]
+  · rw [Glyph.getCpb_move dx dy]
+
+/-! ## 3. Cached values always equal an independent (fresh) computation -/
+
+/-- In every state reachable from an empty layer by any sequence of the modelled operations
+(reads that fill caches, moves that patch them, reversals/rotations that drop them, margin
+setters …) every cached representation of every contour equals what its factory computes from the
+current points. -/
+theorem caches_coherent_in_every_reachable_state {o : CurveOracle} (ho : o.Lawful) (caching : Bool)
+    (ops : List Op) (hops : ∀ op ∈ ops, op.fresh) :
+    (run o { caching := caching, glyphs := [] } ops).1.CacheOK o :=
+  run_cacheOK ho ops hops (by intro ng h; cases h)
+
+/-- Hence what `bounds`, `controlPointBounds` and the area representation answer is exactly the
+fresh computation over the current points (or the exception drawing them raises), cached or not. -/
+theorem reads_answer_the_fresh_computation {o : CurveOracle} (c : Contour) (h : c.CacheOK o) (caching : Bool) :
+    (c.getBounds o caching).2 = answer (drawErr c.points) (freshBnd o c.points) ∧
+    (c.getCpb caching).2 = answer (drawErr c.points) (freshCpb c.points) ∧
+    (c.getArea caching).2 = answer (drawErr c.points) (freshArea c.points) :=
+  ⟨(h.getBounds caching).2.2, (h.getCpb caching).2.2, (h.getArea caching).2.2⟩
+
+/-! ## 4. Reversing a contour -/
+
+/-- Reversing keeps the point set: every point with its position, smooth flag, name and identifier
+is still there, in another order (closed contours; open contours not ending in off-curves). -/
+theorem reverse_keeps_points (pts : List Point) (h : ReversibleShape pts) :
+    ((reversePoints pts).map Point.core).Perm (pts.map Point.core) :=
+  reversePoints_perm pts h
+
+/-- Reversing keeps closedness. -/
+theorem reverse_keeps_closedness (pts : List Point) (h : ReversibleShape pts) :
+    isOpen (reversePoints pts) = isOpen pts :=
+  reversePoints_isOpen pts h
+
+/-- Reversing twice restores the point sequence — positions, segment types, smooth flags, names and
+identifiers. -/
+theorem reverse_twice_restores (pts : List Point) (h : ReversibleShape pts) :
+    reversePoints (reversePoints pts) = pts :=
+  reversePoints_reversePoints pts h
+
+/-- A closed contour keeps its first point first when reversed. -/
+theorem reverse_keeps_first_point (p0 : Point) (rest : List Point) (h : p0.seg ≠ some .move) :
+    ((reversePoints (p0 :: rest)).map Point.core).head? = some p0.core :=
+  reversePoints_head_closed p0 rest h
+
+/-! ## 5. Changing the start point -/
+
+/-- A successful `setStartPoint` either did nothing (open contour, or fewer than two on-curve
+points) or rotated the point sequence of a closed contour so that the chosen on-curve point comes
+first (Python index semantics, negative indices included), dropping the cached representations. -/
+theorem setStartPoint_rotates (c c' : Contour) (i : Int) (h : c.setStartPoint i = .ok c') :
+    (c' = c ∧ (onCurveCount c.points < 2 ∨ isOpen c.points = true)) ∨
+    (∃ k p, pyIndex c.points.length i = some k ∧ c.points[k]? = some p ∧ p.onCurve = true ∧
+      isOpen c.points = false ∧ 2 ≤ onCurveCount c.points ∧
+      c' = { points := c.points.drop k ++ c.points.take k }) :=
+  setStartPoint_ok h
+
+/-- The rotation keeps the point list up to order, and a closed contour (no `move`) stays closed. -/
+theorem setStartPoint_keeps_points_and_closedness (c c' : Contour) (i : Int) (h : c.setStartPoint i = .ok c')
+    (hm : noMove c.points = true) :
+    c'.points.Perm c.points ∧ isOpen c'.points = isOpen c.points := by
+  rcases setStartPoint_ok h with ⟨rfl, _⟩ | ⟨k, p, _, hp, _, hopen, _, rfl⟩
+  · exact ⟨List.Perm.refl _, rfl⟩
+  · exact ⟨drop_append_take_perm _ _, by rw [hopen]; exact isOpen_rotate hp hm⟩
+
+/-- An index that names an off-curve point is rejected (AssertionError), an index out of range too
+(IndexError) — in both cases nothing changes (`setStartPoint` returns no new contour). -/
+theorem setStartPoint_rejects (c : Contour) (i : Int) (h2 : 2 ≤ onCurveCount c.points)
+    (hopen : isOpen c.points = false) :
+    (pyIndex c.points.length i = none → c.setStartPoint i = .error .index) ∧
+    (∀ k p, pyIndex c.points.length i = some k → c.points[k]? = some p → p.seg = none →
+      c.setStartPoint i = .error .assertion) := by
+  have h2' : ¬ onCurveCount c.points < 2 := by omega
+  constructor
+  · intro h
+    simp [Contour.setStartPoint, h2', hopen, h]
+  · intro k p hk hp hs
+    simp [Contour.setStartPoint, h2', hopen, hk, hp, hs]
+
+/-! ## 6. The four margin setters
+
+`b` is what `glyph.bounds` answered (`hb`); `g1` is the glyph after that read (its contour caches
+filled).  Base glyphs of components are looked up in the same layer before and after: the glyph is
+not (transitively) its own base. -/
+
+/-- `leftMargin = v`: the outline is moved so that afterwards `bounds` is the old box shifted by
+`v - xMin`; hence the left margin reads back `v`, the right margin is kept, the width grows by the
+difference, height and vertical origin are untouched. -/
+theorem leftMargin_law {o : CurveOracle} (ho : o.Lawful) (w : World) (g : Glyph) (b : Box) (v : Rat)
+    (hb : (g.getBounds o w).2 = .ok (some b)) :
+    let g1 := (g.getBounds o w).1
+    let g2 := setLeftMargin g1 (some b) v
+    let b2 := b.shift (v - b.xMin) 0
+    (g2.getBounds o w).2 = .ok (some b2) ∧
+    leftMarginOf (some b2) = some v ∧
+    rightMarginOf g2 (some b2) = rightMarginOf g1 (some b) ∧
+    g2.width = g1.width + (v - b.xMin) ∧ g2.height = g1.height ∧ g2.vo = g1.vo := by
+  intro g1 g2 b2
+  obtain ⟨hw, hh, hv⟩ := setLeftMargin_metrics g1 b v
+  refine ⟨setLeftMargin_bounds ho w g b v hb, ?_, ?_, hw, hh, hv⟩
+  · simp [leftMarginOf, b2, Box.shift]
+  · simp only [rightMarginOf, Option.map_some, Option.some.injEq, b2, Box.shift, g2]
+    rw [hw]; ring
+
+/-- `rightMargin = v`: the outline stays (so `bounds`, and with it the left margin, is unchanged),
+the right margin reads back `v`, the width changes by the difference to the old right margin. -/
+theorem rightMargin_law (o : CurveOracle) (w : World) (g : Glyph) (b : Box) (v : Rat)
+    (hb : (g.getBounds o w).2 = .ok (some b)) :
+    let g1 := (g.getBounds o w).1
+    let g2 := setRightMargin g1 (some b) v
+    (g2.getBounds o w).2 = .ok (some b) ∧
+    rightMarginOf g2 (some b) = some v ∧
+    g2.width = g1.width + (v - (g1.width - b.xMax)) ∧ g2.height = g1.height ∧ g2.vo = g1.vo := by
+  intro g1 g2
+  obtain ⟨hc, hk, hh, hv⟩ := setRightMargin_outline g1 (some b) v
+  obtain ⟨h1, h2⟩ := setRightMargin_law g1 b v
+  refine ⟨?_, h1, h2, hh, hv⟩
+  rw [Glyph.getBounds_congr o w g1 g2 hc hk, Glyph.getBounds_idem, hb]
+
+/-- `bottomMargin = v`: the outline stays, the bottom margin reads back `v`, the top margin is kept,
+the height changes by the difference to the old bottom margin, the width is untouched — with and
+without a vertical origin. -/
+theorem bottomMargin_law (o : CurveOracle) (w : World) (g : Glyph) (b : Box) (v old : Rat)
+    (hb : (g.getBounds o w).2 = .ok (some b))
+    (hold : bottomMarginOf (g.getBounds o w).1 (some b) = some old) :
+    let g1 := (g.getBounds o w).1
+    let g2 := setBottomMargin g1 (some b) v
+    (g2.getBounds o w).2 = .ok (some b) ∧
+    bottomMarginOf g2 (some b) = some v ∧
+    topMarginOf g2 (some b) = topMarginOf g1 (some b) ∧
+    g2.height = g1.height + (v - old) ∧ g2.width = g1.width := by
+  intro g1 g2
+  obtain ⟨hc, hk, hw⟩ := setBottomMargin_outline g1 (some b) v
+  obtain ⟨h1, h2, h3⟩ := setBottomMargin_law g1 b v old hold
+  refine ⟨?_, h1, h2, h3, hw⟩
+  rw [Glyph.getBounds_congr o w g1 g2 hc hk, Glyph.getBounds_idem, hb]
+
+/-- `topMargin = v`: the outline stays, the top margin reads back `v`, the bottom margin is kept,
+the height changes by the difference to the old top margin, the width is untouched — with and
+without a vertical origin. -/
+theorem topMargin_law (o : CurveOracle) (w : World) (g : Glyph) (b : Box) (v old : Rat)
+    (hb : (g.getBounds o w).2 = .ok (some b))
+    (hold : topMarginOf (g.getBounds o w).1 (some b) = some old) :
+    let g1 := (g.getBounds o w).1
+    let g2 := setTopMargin g1 (some b) v
+    (g2.getBounds o w).2 = .ok (some b) ∧
+    topMarginOf g2 (some b) = some v ∧
+    bottomMarginOf g2 (some b) = bottomMarginOf g1 (some b) ∧
+    g2.height = g1.height + (v - old) ∧ g2.width = g1.width := by
+  intro g1 g2
+  obtain ⟨hc, hk, hw⟩ := setTopMargin_outline g1 (some b) v
+  obtain ⟨h1, h2, h3⟩ := setTopMargin_law g1 b v old hold
+  refine ⟨?_, h1, h2, h3, hw⟩
+  rw [Glyph.getBounds_congr o w g1 g2 hc hk, Glyph.getBounds_idem, hb]
+
+/-- A glyph without outline has no margins, and the setters leave it alone. -/
+theorem margins_of_empty_outline (g : Glyph) (v : Rat) :
+    leftMarginOf none = none ∧ rightMarginOf g none = none ∧ bottomMarginOf g none = none ∧
+    topMarginOf g none = none ∧ setLeftMargin g none v = g ∧ setRightMargin g none v = g ∧
+    setBottomMargin g none v = g ∧ setTopMargin g none v = g :=
+  ⟨rfl, rfl, rfl, rfl, rfl, rfl, rfl, rfl⟩
 
 end DefconModel.Props.C17
